@@ -493,6 +493,20 @@ func (s *Server) process(c *client, name string, full [][]byte) (Reply, bool) {
 	}
 	def, ok := commands[name]
 	if !ok {
+		if s.majorVersion() >= 5 {
+			// Redis >= 5 echoes the arguments of a command it does not know (at most 128 bytes of them)
+			echo := ""
+			for _, a := range args {
+				if rem := 128 - len(echo); rem > 0 {
+					t := "`" + string(a) + "`, "
+					if len(t) > rem {
+						t = t[:rem]
+					}
+					echo += t
+				}
+			}
+			return fail(Err("ERR unknown command `" + string(full[0]) + "`, with args beginning with: " + echo))
+		}
 		return fail(Err("ERR unknown command '" + string(full[0]) + "'"))
 	}
 	if !arityOK(def.arity, len(full)) {
